@@ -56,6 +56,12 @@ def generate(rng, rep=None, odd_names=False, n_exe=2, n_lib=1, with_commands=Tru
     L.append("project(%s, version='1.0')" % pyrepr(p.name))
     gopts = ['-DG%d=%s' % (i, adversarial_arg(rng, rep)) for i in range(rng.randint(0, 2))]
     glopts = ['-Wl,--defsym=g%d=%d' % (i, i) for i in range(rng.randint(0, 1))]
+    # the same word more than once in a global list: a macro re-asserted after its negation, two-word options sharing
+    # their first word (every occurrence, in order, is what the script specifies)
+    if rng.random() < 0.5:
+        gopts = gopts + ['-DREP=1', '-UREP', '-DREP=1']
+    if rng.random() < 0.5:
+        glopts = glopts + ['-Xlinker', '--as-needed', '-Xlinker', '--no-as-needed']
     p.global_compile = gopts
     p.global_link = glopts
     if gopts:
@@ -92,8 +98,15 @@ def generate(rng, rep=None, odd_names=False, n_exe=2, n_lib=1, with_commands=Tru
         copts = ['-DE%d=%s' % (i, adversarial_arg(rng, rep)) for _ in range(rng.randint(0, 3))]
         lopts = ['-Wl,--defsym=e%d=%d' % (i, i)] if rng.random() < 0.5 else []
         use = [l for l in libs if rng.random() < 0.6]
-        L.append("exe%d = executable(%s, files=%s, compile_options=%s, link_options=%s, libs=[%s])" % (
-            i, pyrepr(ename), pyrepr(srcs), pyrepr(copts), pyrepr(lopts), ', '.join(use)))
+        pch = ''
+        if i == n_exe - 1 and rng.random() < 0.5:
+            # a precompiled header: its step and the steps that use it must be the same in every backend (which file is
+            # compiled, which prerequisites)
+            p.files['pch%d.h' % i] = '#define PCH%d 1\n' % i
+            L.append("pch%d = precompiled_header(file='pch%d.h')" % (i, i))
+            pch = ', pch=pch%d' % i
+        L.append("exe%d = executable(%s, files=%s, compile_options=%s, link_options=%s, libs=[%s]%s)" % (
+            i, pyrepr(ename), pyrepr(srcs), pyrepr(copts), pyrepr(lopts), ', '.join(use), pch))
         for s in srcs:
             p.steps.append({'kind': 'compile', 'source': s, 'owner': ename, 'options': copts, 'lib': False})
         p.steps.append({'kind': 'link', 'name': ename, 'sources': srcs, 'options': lopts, 'libs': use})
